@@ -23,6 +23,43 @@ CLAIMED = {
              'are harness ranks. Known finding F15 (lost instance while STOPPING) exempted by a TLA+ signature.'),
 }
 
+CLUSTER_NOTE = ('Trusted: SimCluster (threads, XML-RPC transport, fork/kill, clocks, host identity simulated; everything '
+                'under supvisors/ and Supervisor process tables are real); ticks periodic (one per live instance per '
+                'round, any order); liveness is bounded (terminal formulas after 12 fair quiet rounds); E1 bounds '
+                '(rounds, fault budgets, slow FIFO sets) are listed in the evidence file.')
+CLUSTER_TECH = ('TLA+ spec Cluster.tla model-checked by TLC (exhaustive, delay-bounded) + TLC behaviours replayed on real '
+                'Supvisors cores with projection comparison + TLC monitor (ClusterMon/ClusterProps) over recorded '
+                'implementation traces (replays, seeded random schedules with faults/injections, scenarios)')
+
+
+def cluster(pid, what):
+    return dict(engine='Cluster', technique=CLUSTER_TECH, design_ref=f'DESIGN.md 3 {pid}', note=CLUSTER_NOTE,
+                text=what + ' The formulas are written once (ClusterProps.tla) over observable step records and are '
+                'evaluated by TLC both on every transition of the model and on every step recorded from the real '
+                'code; model counterexamples are replayed on the real code before anything is reported.')
+
+
+CLAIMED.update({
+    'C01': cluster('C01', 'Election rule at every change of Master, Master-only automatic requests, and convergence '
+                          'on one running Master after the disturbances stop, for 2-4 instances, all synchro option '
+                          'families, core identifiers, auto_fence, crash / restart / partition budgets.'),
+    'C02': cluster('C02', 'Every published Supvisors state change follows the documented graph (literal, not read from '
+                          'the code), master-driven states need a running Master and slaves only follow, under user '
+                          'restart / shutdown / end_sync requests and all three failure strategies.'),
+    'C07': cluster('C07', 'Instance state graph, accuracy (FAILED needs a tick timeout, an XML-RPC failure or a '
+                          'restart), completeness after every local tick, fencing rule, for inactivity_ticks 2-3, '
+                          'both auto_fence values, crashes, restarts faster than detection, partitions.'),
+    'C08': cluster('C08', 'Terminal classification after fair quiet rounds: every run ends Settled or in a listed '
+                          'known class (TLA+ predicates), plus "no decision refused for ever"; includes real '
+                          'CONCILIATION checkpoints with every single fault injected.'),
+    'C13': cluster('C13', 'Deliveries from an origin held ISOLATED leave the full XML-RPC status snapshot unchanged, '
+                          'nothing is queued towards an isolated peer, ISOLATED is absorbing, peers with different '
+                          'strategies are never admitted; stale / duplicated handshake notifications are injected.'),
+    'C16': cluster('C16', 'No traceback in a critical log, no non-RPCError exception out of an XML-RPC, no exception '
+                          'out of a proxy step, over all cluster runs incl. adversarial injections; in the model every '
+                          'partial operation (instance / FSM transition tables, empty candidate list) raises err.'),
+})
+
 PENDING_REASON = 'check not built yet (work in progress; see DESIGN.md section 3)'
 
 
